@@ -17,6 +17,9 @@
 #define VH_MAIN
 #include "vh.h"
 
+#include <cmath>
+#include <cstdarg>
+
 #include <asmjit/core.h>
 #include <asmjit/a64.h>
 #include <asmjit/core/codewriter_p.h>
@@ -493,7 +496,766 @@ static void run_offsets(const vh::Case& c, vh::Ctx& ctx) {
   flush_off_stats(ctx, f, st);
 }
 
-//@@IMM-SECTION@@
+// =================================================================================================
+// (b) AArch64 immediates
+// =================================================================================================
+
+// Reports unless the key is a known finding; returns (instead of throwing) when known.
+static bool imm_fail(vh::Ctx& ctx, const std::string& key, const char* fmt, ...) __attribute__((format(printf, 3, 4)));
+static bool imm_fail(vh::Ctx& ctx, const std::string& key, const char* fmt, ...) {
+  if (ctx.is_known(key)) { ctx.known_hits[key]++; return true; }
+  char b[700];
+  va_list ap;
+  va_start(ap, fmt);
+  vsnprintf(b, sizeof b, fmt, ap);
+  va_end(ap);
+  ctx.fail(key, b);
+}
+
+// ---- DecodeBitMasks(immN, imms, immr, immediate, M) from the Arm ARM pseudo-code -----------------
+struct BitMasks { bool valid; uint64_t wmask, tmask; unsigned esize; };
+
+static uint64_t replicate(uint64_t elem, unsigned esize, unsigned M) {
+  uint64_t r = 0;
+  elem &= mask_n(esize);
+  for (unsigned i = 0; i < M; i += esize) r |= elem << i;
+  return r;
+}
+
+static BitMasks decode_bit_masks(unsigned N, unsigned imms, unsigned immr, bool immediate, unsigned M) {
+  BitMasks bm{false, 0, 0, 0};
+  unsigned v = ((N & 1) << 6) | (~imms & 0x3F);
+  int len = -1;
+  for (int i = 6; i >= 0; i--) if ((v >> i) & 1) { len = i; break; }      // HighestSetBit(immN:NOT(imms))
+  if (len < 1) return bm;                                                    // UNDEFINED
+  if (M < (1u << len)) return bm;                                            // sf == 0 && N == 1 is UNDEFINED
+  unsigned levels = (1u << len) - 1;
+  if (immediate && (imms & levels) == levels) return bm;                     // UNDEFINED
+  unsigned S = imms & levels, R = immr & levels;
+  unsigned esize = 1u << len;
+  unsigned d = (S - R) & levels;
+  uint64_t welem = mask_n(S + 1), telem = mask_n(d + 1);
+  uint64_t em = mask_n(esize);
+  uint64_t wr = R ? (((welem >> R) | (welem << (esize - R))) & em) : welem;  // ROR(welem, R) on esize bits
+  bm.valid = true;
+  bm.wmask = replicate(wr, esize, M);
+  bm.tmask = replicate(telem, esize, M);
+  bm.esize = esize;
+  return bm;
+}
+
+struct LogicalRef { std::unordered_set<uint64_t> set64, set32; };
+static const LogicalRef& logical_ref() {
+  static LogicalRef r;
+  if (r.set64.empty()) {
+    for (unsigned N = 0; N < 2; N++)
+      for (unsigned immr = 0; immr < 64; immr++)
+        for (unsigned imms = 0; imms < 64; imms++) {
+          BitMasks a = decode_bit_masks(N, imms, immr, true, 64);
+          if (a.valid) r.set64.insert(a.wmask);
+          BitMasks b = decode_bit_masks(N, imms, immr, true, 32);
+          if (b.valid) r.set32.insert(b.wmask);
+        }
+  }
+  return r;
+}
+static bool ref_is_logical(uint64_t v, unsigned width) {
+  const LogicalRef& r = logical_ref();
+  return width == 64 ? r.set64.count(v) != 0 : (v <= 0xFFFFFFFFull && r.set32.count(v) != 0);
+}
+
+// ---- a tiny interpreter for the integer data-processing (immediate) encodings used here ---------
+struct Machine {
+  uint64_t x[31];
+  uint64_t sp;
+  void init(uint64_t seed) { for (int i = 0; i < 31; i++) x[i] = mix64(seed + uint64_t(i) * 0x51ull); sp = mix64(seed ^ 0x5111ull); }
+  uint64_t rz(unsigned r) const { return r == 31 ? 0 : x[r]; }          // register 31 = ZR
+  void wz(unsigned r, uint64_t v, bool sf) { if (r != 31) x[r] = sf ? v : (v & 0xFFFFFFFFull); }
+  void wsp(unsigned r, uint64_t v, bool sf) { v = sf ? v : (v & 0xFFFFFFFFull); if (r == 31) sp = v; else x[r] = v; }   // register 31 = SP
+};
+
+static inline uint64_t ror_n(uint64_t v, unsigned r, unsigned size) {
+  v &= mask_n(size);
+  r %= size;
+  return r ? ((v >> r) | (v << (size - r))) & mask_n(size) : v;
+}
+
+// Executes one instruction word; returns false when the word is not one of the encodings modelled (or is UNDEFINED).
+static bool machine_exec(Machine& m, uint32_t w) {
+  bool sf = (w >> 31) & 1;
+  unsigned size = sf ? 64 : 32;
+  unsigned opc = (w >> 29) & 3, rd = w & 31, rn = (w >> 5) & 31;
+  uint32_t cls = w & 0x1F800000u;
+  if (cls == 0x12800000u) {
+    // Move wide (immediate): sf opc 100101 hw imm16 Rd; opc 00 MOVN, 10 MOVZ, 11 MOVK
+    unsigned hw = (w >> 21) & 3;
+    uint64_t imm16 = (w >> 5) & 0xFFFF;
+    if (opc == 1) return false;
+    if (!sf && (hw & 2)) return false;
+    unsigned pos = hw * 16;
+    uint64_t r;
+    if (opc == 3) r = (m.rz(rd) & ~(0xFFFFull << pos)) | (imm16 << pos);
+    else { r = imm16 << pos; if (opc == 0) r = ~r; }
+    m.wz(rd, r, sf);
+    return true;
+  }
+  if (cls == 0x12000000u) {
+    // Logical (immediate): sf opc 100100 N immr imms Rn Rd; opc 00 AND, 01 ORR, 10 EOR, 11 ANDS
+    unsigned N = (w >> 22) & 1, immr = (w >> 16) & 63, imms = (w >> 10) & 63;
+    if (!sf && N) return false;
+    BitMasks bm = decode_bit_masks(N, imms, immr, true, size);
+    if (!bm.valid) return false;
+    uint64_t a = m.rz(rn), r;
+    switch (opc) { case 0: r = a & bm.wmask; break; case 1: r = a | bm.wmask; break; case 2: r = a ^ bm.wmask; break; default: r = a & bm.wmask; break; }
+    if (opc == 3) m.wz(rd, r, sf); else m.wsp(rd, r, sf);
+    return true;
+  }
+  if (cls == 0x13000000u) {
+    // Bitfield: sf opc 100110 N immr imms Rn Rd; opc 00 SBFM, 01 BFM, 10 UBFM
+    unsigned N = (w >> 22) & 1, immr = (w >> 16) & 63, imms = (w >> 10) & 63;
+    if (opc == 3) return false;
+    if (sf && !N) return false;
+    if (!sf && (N || (immr & 32) || (imms & 32))) return false;
+    BitMasks bm = decode_bit_masks(N, imms, immr, false, size);
+    if (!bm.valid) return false;
+    bool inzero = opc != 1, extend = opc == 0;
+    uint64_t sm = mask_n(size);
+    uint64_t dst = inzero ? 0 : (m.rz(rd) & sm), src = m.rz(rn) & sm;
+    uint64_t bot = (dst & ~bm.wmask) | (ror_n(src, immr, size) & bm.wmask);
+    uint64_t top = extend ? (((src >> imms) & 1) ? sm : 0) : dst;
+    uint64_t r = ((top & ~bm.tmask) | (bot & bm.tmask)) & sm;
+    m.wz(rd, r, sf);
+    return true;
+  }
+  if (cls == 0x13800000u) {
+    // Extract: sf 00 100111 N 0 Rm imms Rn Rd
+    unsigned N = (w >> 22) & 1, o0 = (w >> 21) & 1, rm = (w >> 16) & 31, imms = (w >> 10) & 63;
+    if (opc != 0 || o0) return false;
+    if (N != (sf ? 1u : 0u)) return false;
+    if (!sf && (imms & 32)) return false;
+    uint64_t sm = mask_n(size);
+    uint64_t hi = m.rz(rn) & sm, lo = m.rz(rm) & sm;
+    uint64_t r = imms ? ((lo >> imms) | (hi << (size - imms))) & sm : lo;
+    m.wz(rd, r, sf);
+    return true;
+  }
+  return false;
+}
+
+// ---- assembler wrapper ------------------------------------------------------------------------
+struct A64 {
+  CodeHolder code;
+  a64::Assembler a;
+  std::vector<uint32_t> words;      // words emitted by the last emit()
+  A64() {
+    Environment env(Arch::kAArch64);
+    code.init(env);
+    code.attach(&a);
+  }
+  size_t size() const { return code.text_section()->buffer().size(); }
+  template<typename... Args>
+  Error emit(InstId id, Args&&... args) {
+    size_t before = size();
+    Error e = a.emit(id, std::forward<Args>(args)...);
+    size_t after = size();
+    words.clear();
+    const uint8_t* d = code.text_section()->buffer().data();
+    for (size_t o = before; o + 4 <= after; o += 4) { uint32_t v; memcpy(&v, d + o, 4); words.push_back(v); }
+    tail = (after - before) & 3;
+    return e;
+  }
+  size_t tail = 0;
+};
+
+// Common post-conditions of one emit: an error emits nothing, success emits whole words.
+static bool emit_shape_ok(vh::Ctx& ctx, A64& s, Error e, const char* family, const char* what) {
+  if (e != Error::kOk && (!s.words.empty() || s.tail))
+    return !imm_fail(ctx, std::string(family) + "-error-but-emitted", "%s: error %u returned but %zu words were emitted", what, unsigned(e), s.words.size());
+  if (e == Error::kOk && (s.words.empty() || s.tail))
+    return !imm_fail(ctx, std::string(family) + "-ok-but-nothing-emitted", "%s: kOk returned but %zu words (+%zu bytes) were emitted", what, s.words.size(), s.tail);
+  return true;
+}
+
+static a64::Gp gp_reg(bool sf, unsigned id) { return sf ? a64::Gp::make_r64(id) : a64::Gp::make_r32(id); }
+
+// ---- family 1: logical (bitmask) immediates --------------------------------------------------
+static void check_logical_util(vh::Ctx& ctx, uint64_t v, unsigned width) {
+  bool ref = ref_is_logical(v, width);
+  arm::Utils::LogicalImm li{0xFFFFFFFFu, 0xFFFFFFFFu, 0xFFFFFFFFu};
+  bool ok = arm::Utils::encode_logical_imm(v, width, Out(li));
+  ctx.cls(ok ? "logical/util-accepted" : "logical/util-rejected");
+  if (ok && !ref) { if (imm_fail(ctx, "logical-imm-accepts-unencodable", "encode_logical_imm(0x%" PRIx64 ", %u) succeeded (n=%u s=%u r=%u) but no (N,immr,imms) decodes to this value", v, width, li.n, li.s, li.r)) return; }
+  if (!ok && ref) { if (imm_fail(ctx, "logical-imm-rejects-encodable", "encode_logical_imm(0x%" PRIx64 ", %u) failed but the value is a bitmask immediate", v, width)) return; }
+  if (ok) {
+    BitMasks bm{false, 0, 0, 0};
+    bool fields_ok = li.n <= 1 && li.s <= 63 && li.r <= 63 && !(width == 32 && li.n);
+    if (fields_ok) bm = decode_bit_masks(li.n, li.s, li.r, true, width);
+    if (!fields_ok || !bm.valid || bm.wmask != v) {
+      if (imm_fail(ctx, "logical-imm-wrong-fields", "encode_logical_imm(0x%" PRIx64 ", %u) -> n=%u s=%u r=%u decodes to 0x%" PRIx64 " (valid=%d)", v, width, li.n, li.s, li.r, bm.wmask, int(bm.valid))) return;
+    }
+    if (li.r >= bm.esize) ctx.cls("logical/util-noncanonical-immr");
+  }
+  if (arm::Utils::is_logical_imm(v, width) != ok)
+    imm_fail(ctx, "logical-imm-is-mismatch", "is_logical_imm(0x%" PRIx64 ", %u) disagrees with encode_logical_imm (%d)", v, width, int(ok));
+}
+
+struct LogInst { InstId id; unsigned opc; bool negate; bool tst; const char* name; };
+static const LogInst kLogInsts[] = {
+  {a64::Inst::kIdAnd, 0, false, false, "and"}, {a64::Inst::kIdOrr, 1, false, false, "orr"}, {a64::Inst::kIdEor, 2, false, false, "eor"},
+  {a64::Inst::kIdAnds, 3, false, false, "ands"}, {a64::Inst::kIdTst, 3, false, true, "tst"},
+  {a64::Inst::kIdBic, 0, true, false, "bic"}, {a64::Inst::kIdOrn, 1, true, false, "orn"}, {a64::Inst::kIdEon, 2, true, false, "eon"}, {a64::Inst::kIdBics, 3, true, false, "bics"},
+};
+static const unsigned kNumLogInsts = unsigned(sizeof(kLogInsts) / sizeof(kLogInsts[0]));
+
+// `v` is the mask the instruction must apply; negating forms are asked for ~v.
+static void check_logical_asm(vh::Ctx& ctx, A64& s, uint64_t v, unsigned width, unsigned inst_sel) {
+  const LogInst& li = kLogInsts[inst_sel % kNumLogInsts];
+  bool sf = width == 64;
+  uint64_t wm = mask_n(width);
+  uint64_t req = li.negate ? (~v & wm) : v;
+  unsigned rd = 2 + unsigned(v % 7), rn = 9 + unsigned((v >> 8) % 11);
+  Error e = li.tst ? s.emit(li.id, gp_reg(sf, rn), Imm(int64_t(req))) : s.emit(li.id, gp_reg(sf, rd), gp_reg(sf, rn), Imm(int64_t(req)));
+  if (!emit_shape_ok(ctx, s, e, "logical-imm-asm", li.name)) return;
+  bool ref = ref_is_logical(v, width);
+  ctx.cls(e == Error::kOk ? "logical/asm-accepted" : "logical/asm-rejected");
+  if (e == Error::kOk && !ref) { if (imm_fail(ctx, "logical-imm-asm-accepts-unencodable", "%s %c, #0x%" PRIx64 " assembled to 0x%08x although 0x%" PRIx64 " is not a bitmask immediate", li.name, sf ? 'x' : 'w', req, s.words[0], v)) return; }
+  if (e != Error::kOk && ref) { if (imm_fail(ctx, "logical-imm-asm-rejects-encodable", "%s %c, #0x%" PRIx64 " refused with error %u although 0x%" PRIx64 " is a bitmask immediate", li.name, sf ? 'x' : 'w', req, unsigned(e), v)) return; }
+  if (e != Error::kOk) return;
+  uint32_t w = s.words[0];
+  bool shape = s.words.size() == 1 && (w & 0x1F800000u) == 0x12000000u && ((w >> 31) & 1) == (sf ? 1u : 0u) && ((w >> 29) & 3) == li.opc &&
+               ((w >> 5) & 31) == rn && (w & 31) == (li.tst ? 31u : rd);
+  if (!shape) { if (imm_fail(ctx, "logical-imm-asm-wrong-opcode", "%s %c%u, %c%u, #0x%" PRIx64 " assembled to 0x%08x (%zu words): not the expected logical (immediate) encoding", li.name, sf ? 'x' : 'w', rd, sf ? 'x' : 'w', rn, req, w, s.words.size())) return; }
+  unsigned N = (w >> 22) & 1, immr = (w >> 16) & 63, imms = (w >> 10) & 63;
+  BitMasks bm = (!sf && N) ? BitMasks{false, 0, 0, 0} : decode_bit_masks(N, imms, immr, true, width);
+  if (!bm.valid || bm.wmask != v)
+    imm_fail(ctx, "logical-imm-asm-wrong-fields", "%s %c, #0x%" PRIx64 " assembled to 0x%08x: N=%u immr=%u imms=%u decodes to 0x%" PRIx64 " (valid=%d), expected mask 0x%" PRIx64, li.name, sf ? 'x' : 'w', req, w, N, immr, imms, bm.wmask, int(bm.valid), v);
+}
+
+static uint64_t logical_pattern(int64_t a, int64_t b, int64_t c) {
+  unsigned esize = 2u << umod(a, 6);
+  unsigned ones = 1 + unsigned(umod(b, esize - 1));
+  unsigned rot = unsigned(umod(c, esize));
+  uint64_t e = ror_n(mask_n(ones), rot, esize);
+  return replicate(e, esize, 64);
+}
+
+static void run_logical(const vh::Case& c, vh::Ctx& ctx) {
+  logical_ref();
+  if (logical_ref().set64.size() != 5334 || logical_ref().set32.size() != 1302)
+    ctx.fail("harness-selfcheck", "reference DecodeBitMasks enumerates " + std::to_string(logical_ref().set64.size()) + "/" + std::to_string(logical_ref().set32.size()) + " values, expected 5334/1302");
+  unsigned sel = unsigned(umod(cfg_at(c, 1), 4));
+  unsigned width = (sel & 1) ? 32 : 64;
+  bool via_asm = sel >= 2;
+  uint64_t wm = mask_n(width);
+  A64 s;
+  uint64_t nvalid = 0;
+  if (cfg_at(c, 3) > 0) {
+    unsigned imms = unsigned(umod(cfg_at(c, 2), 64));
+    for (unsigned N = 0; N < 2; N++)
+      for (unsigned immr = 0; immr < 64; immr++) {
+        BitMasks bm = decode_bit_masks(N, imms, immr, true, width);
+        if (!bm.valid) { ctx.cls("logical/enc-undefined"); continue; }
+        nvalid++;
+        ctx.cls(width == 64 ? "logical/enc-valid-64" : "logical/enc-valid-32");
+        uint64_t v = bm.wmask;
+        unsigned k = N * 64 + immr;
+        if (!via_asm) {
+          check_logical_util(ctx, v, width);
+          for (unsigned b = 0; b < width; b++) check_logical_util(ctx, v ^ (1ull << b), width);
+          check_logical_util(ctx, (v + 1) & wm, width);
+          check_logical_util(ctx, (v - 1) & wm, width);
+        } else {
+          for (unsigned i = 0; i < kNumLogInsts; i++) check_logical_asm(ctx, s, v, width, i);
+          for (unsigned b = 0; b < width; b++) check_logical_asm(ctx, s, v ^ (1ull << b), width, k + b);
+        }
+      }
+    if (!via_asm) { check_logical_util(ctx, 0, width); check_logical_util(ctx, wm, width); }
+    else { for (unsigned i = 0; i < kNumLogInsts; i++) { check_logical_asm(ctx, s, 0, width, i); check_logical_asm(ctx, s, wm, width, i); } }
+    ctx.cls("logical-sweep-items");
+  }
+  for (const vh::Op& op : c.ops) {
+    unsigned osel = unsigned(umod(op_at(op, 0), 4));
+    unsigned ow = (osel & 1) ? 32 : 64;
+    int kind = int(umod(op_at(op, 1), 4));
+    uint64_t v;
+    switch (kind) {
+      default:
+      case 0: v = uint64_t(op_at(op, 2)); break;
+      case 1: v = logical_pattern(op_at(op, 2), op_at(op, 3), op_at(op, 4)); break;
+      case 2: v = logical_pattern(op_at(op, 2), op_at(op, 3), op_at(op, 4)) ^ (1ull << umod(op_at(op, 5), 64)); break;
+      case 3: { unsigned e = 8u << umod(op_at(op, 3), 3); v = replicate(uint64_t(op_at(op, 2)), e, 64); break; }
+    }
+    v &= mask_n(ow);
+    if (ref_is_logical(v, ow)) { nvalid++; ctx.cls("logical/explicit-encodable"); } else ctx.cls("logical/explicit-unencodable");
+    if (osel < 2) check_logical_util(ctx, v, ow); else check_logical_asm(ctx, s, v, ow, unsigned(umod(op_at(op, 6), kNumLogInsts)));
+  }
+  if (nvalid) {
+    ctx.nontrivial();
+    if (ctx.want_sample()) {
+      char b[160];
+      snprintf(b, sizeof b, "logical-imm width=%u via=%s imms=%" PRId64 " ops=%zu: %" PRIu64 " encodable values + neighbours", width, via_asm ? "assembler" : "utils", cfg_at(c, 2), c.ops.size(), nvalid);
+      ctx.sample(b);
+    }
+  }
+}
+
+// ---- family 2: 8-bit floating-point immediates ------------------------------------------------
+// VFPExpandImm(imm8, N) from the Arm ARM: sign = imm8<7>; exp = NOT(imm8<6>):Replicate(imm8<6>, E-3):imm8<5:4>;
+// frac = imm8<3:0>:Zeros(F-4) with (N,E) = (16,5), (32,8), (64,11).
+static uint64_t vfp_expand_imm(unsigned imm8, unsigned N) {
+  unsigned E = N == 16 ? 5 : N == 32 ? 8 : 11;
+  unsigned F = N - E - 1;
+  uint64_t sign = (imm8 >> 7) & 1, b6 = (imm8 >> 6) & 1;
+  uint64_t exp = ((b6 ^ 1) << (E - 1)) | ((b6 ? mask_n(E - 3) : 0) << 2) | ((imm8 >> 4) & 3);
+  uint64_t frac = uint64_t(imm8 & 15) << (F - 4);
+  return (sign << (N - 1)) | (exp << F) | frac;
+}
+static const unsigned kPrecBits[3] = {16, 32, 64};
+struct FpRef { std::unordered_set<uint64_t> set[3]; };
+static const FpRef& fp_ref() {
+  static FpRef r;
+  if (r.set[0].empty())
+    for (int p = 0; p < 3; p++) for (unsigned i = 0; i < 256; i++) r.set[p].insert(vfp_expand_imm(i, kPrecBits[p]));
+  return r;
+}
+// exact value of an IEEE binary16/32/64 bit pattern that is a normal number
+static double fp_bits_to_double(uint64_t bits, unsigned N) {
+  unsigned E = N == 16 ? 5 : N == 32 ? 8 : 11, F = N - E - 1;
+  int bias = (1 << (E - 1)) - 1;
+  int e = int((bits >> F) & mask_n(E));
+  uint64_t fr = bits & mask_n(F);
+  double m = 1.0 + ldexp(double(fr), -int(F));
+  double v = ldexp(m, e - bias);
+  return ((bits >> (N - 1)) & 1) ? -v : v;
+}
+static double bits_to_double(uint64_t b) { double d; memcpy(&d, &b, 8); return d; }
+static uint64_t double_to_bits(double d) { uint64_t b; memcpy(&b, &d, 8); return b; }
+
+static void check_fp_util(vh::Ctx& ctx, int prec, uint64_t bits) {
+  bits &= mask_n(kPrecBits[prec]);
+  bool ref = fp_ref().set[prec].count(bits) != 0;
+  bool acc = prec == 0 ? arm::Utils::is_fp16_imm8(uint32_t(bits)) : prec == 1 ? arm::Utils::is_fp32_imm8(uint32_t(bits)) : arm::Utils::is_fp64_imm8(bits);
+  ctx.cls(acc ? "fp/util-accepted" : "fp/util-rejected");
+  if (acc && !ref) { if (imm_fail(ctx, "fp-imm-accepts-unencodable", "is_fp%u_imm8(0x%" PRIx64 ") is true but no imm8 expands to this value", kPrecBits[prec], bits)) return; }
+  if (!acc && ref) { if (imm_fail(ctx, "fp-imm-rejects-encodable", "is_fp%u_imm8(0x%" PRIx64 ") is false but VFPExpandImm produces this value", kPrecBits[prec], bits)) return; }
+  if (prec == 2) {
+    bool isnan = ((bits >> 52) & 0x7FF) == 0x7FF && (bits & mask_n(52));
+    if (!isnan && arm::Utils::is_fp64_imm8(bits_to_double(bits)) != acc) { if (imm_fail(ctx, "fp-imm-overload-mismatch", "is_fp64_imm8(double) disagrees with is_fp64_imm8(uint64_t) for 0x%" PRIx64, bits)) return; }
+    if (acc) {
+      uint32_t imm8 = arm::Utils::encode_fp64_to_imm8(bits);
+      if (imm8 > 255 || vfp_expand_imm(imm8, 64) != bits)
+        imm_fail(ctx, "fp-imm-wrong-imm8", "encode_fp64_to_imm8(0x%" PRIx64 ") = 0x%x which expands to 0x%" PRIx64, bits, imm8, imm8 <= 255 ? vfp_expand_imm(imm8, 64) : 0);
+    }
+  } else if (prec == 1) {
+    bool isnan = ((bits >> 23) & 0xFF) == 0xFF && (bits & mask_n(23));
+    if (!isnan) {
+      uint32_t b32 = uint32_t(bits); float f; memcpy(&f, &b32, 4);
+      if (arm::Utils::is_fp32_imm8(f) != acc) imm_fail(ctx, "fp-imm-overload-mismatch", "is_fp32_imm8(float) disagrees with is_fp32_imm8(uint32_t) for 0x%x", b32);
+    }
+  }
+}
+
+// fmov <target>, #double : target 0..7 = d, s, h, v.2d, v.4s, v.2s, v.8h, v.4h
+static void check_fp_asm(vh::Ctx& ctx, A64& s, unsigned target, uint64_t dbits, int as_int) {
+  target %= 8;
+  static const char* names[8] = {"d", "s", "h", "v.2d", "v.4s", "v.2s", "v.8h", "v.4h"};
+  static const unsigned precs[8] = {64, 32, 16, 64, 32, 32, 16, 16};
+  unsigned rd = unsigned(dbits % 32);
+  a64::Vec v = a64::Vec::make_v128(rd);
+  a64::Vec t = target == 0 ? v.d() : target == 1 ? v.s() : target == 2 ? v.h() : target == 3 ? v.d2() : target == 4 ? v.s4() : target == 5 ? v.s2() : target == 6 ? v.h8() : v.h4();
+  double d = as_int ? double(int32_t(as_int)) : bits_to_double(dbits);
+  if (as_int) dbits = double_to_bits(d);
+  Error e = as_int ? s.emit(a64::Inst::kIdFmov_v, t, Imm(int32_t(as_int))) : s.emit(a64::Inst::kIdFmov_v, t, Imm(d));
+  if (!emit_shape_ok(ctx, s, e, "fp-imm-asm", names[target])) return;
+  bool ref = fp_ref().set[2].count(dbits) != 0;
+  ctx.cls(e == Error::kOk ? "fp/asm-accepted" : "fp/asm-rejected");
+  if (e == Error::kOk && !ref) { if (imm_fail(ctx, "fp-imm-asm-accepts-unencodable", "fmov %s, #%a (0x%" PRIx64 ") assembled to 0x%08x although the value is not an 8-bit fp immediate", names[target], d, dbits, s.words[0])) return; }
+  if (e != Error::kOk && ref) { if (imm_fail(ctx, "fp-imm-asm-rejects-encodable", "fmov %s, #%a (0x%" PRIx64 ") refused with error %u", names[target], d, dbits, unsigned(e))) return; }
+  if (e != Error::kOk) return;
+  uint32_t w = s.words[0];
+  unsigned imm8 = 0;
+  bool shape = s.words.size() == 1 && (w & 31) == rd;
+  if (target < 3) {
+    // FMOV (scalar, immediate): 0 0 0 11110 ftype 1 imm8 100 00000 Rd; ftype 00 S, 01 D, 11 H
+    unsigned ftype = (w >> 22) & 3;
+    shape = shape && (w & 0xFF201FE0u) == 0x1E201000u && ftype == (target == 0 ? 1u : target == 1 ? 0u : 3u);
+    imm8 = (w >> 13) & 0xFF;
+  } else {
+    // FMOV (vector, immediate): 0 Q op 0111100000 a b c 1111 o2 1 d e f g h Rd; (op,o2) 00 single, 10 double (Q=1), 01 half
+    unsigned Q = (w >> 30) & 1, op = (w >> 29) & 1, o2 = (w >> 11) & 1;
+    unsigned eop = target == 3 ? 1 : 0, eo2 = target >= 6 ? 1 : 0, eq = (target == 3 || target == 4 || target == 6) ? 1 : 0;
+    shape = shape && (w & 0x9FF8F400u) == 0x0F00F400u && op == eop && o2 == eo2 && Q == eq;
+    imm8 = (((w >> 16) & 7) << 5) | ((w >> 5) & 31);
+  }
+  if (!shape) { if (imm_fail(ctx, "fp-imm-asm-wrong-opcode", "fmov %s%u, #%a assembled to 0x%08x (%zu words): not the expected FMOV (immediate) encoding", names[target], rd, d, w, s.words.size())) return; }
+  double got = fp_bits_to_double(vfp_expand_imm(imm8, precs[target]), precs[target]);
+  if (double_to_bits(got) != dbits)
+    imm_fail(ctx, "fp-imm-asm-wrong-imm8", "fmov %s, #%a assembled to 0x%08x: imm8=0x%02x expands to %a", names[target], d, w, imm8, got);
+}
+
+static void run_fp(const vh::Case& c, vh::Ctx& ctx) {
+  if (fp_ref().set[0].size() != 256 || fp_ref().set[1].size() != 256 || fp_ref().set[2].size() != 256)
+    ctx.fail("harness-selfcheck", "VFPExpandImm reference does not give 256 distinct values per precision");
+  int prec = int(umod(cfg_at(c, 1), 3));
+  int mode = int(umod(cfg_at(c, 2), 3));
+  unsigned nb = kPrecBits[prec];
+  A64 s;
+  uint64_t judged = 0;
+  if (cfg_at(c, 3) > 0) {
+    if (mode == 0) {
+      for (unsigned i = 0; i < 256; i++) {
+        uint64_t v = vfp_expand_imm(i, nb);
+        check_fp_util(ctx, prec, v);
+        for (unsigned b = 0; b < nb; b++) check_fp_util(ctx, prec, v ^ (1ull << b));
+        for (int dlt = -3; dlt <= 3; dlt++) check_fp_util(ctx, prec, v + uint64_t(int64_t(dlt)));
+        for (unsigned b = 0; b + 1 < nb; b++) check_fp_util(ctx, prec, v ^ (3ull << b));
+        judged += 2 * nb + 7;
+      }
+      const uint64_t special[] = {0, 1, mask_n(nb), 1ull << (nb - 1), mask_n(nb - 1)};
+      for (uint64_t v : special) check_fp_util(ctx, prec, v);
+    } else if (mode == 1) {
+      // through the assembler: every imm8 for every register form, plus neighbours
+      for (unsigned i = 0; i < 256; i++) {
+        uint64_t v = vfp_expand_imm(i, 64);
+        for (unsigned t = 0; t < 8; t++) check_fp_asm(ctx, s, t, v, 0);
+        for (unsigned b = 0; b < 64; b++) check_fp_asm(ctx, s, (i + b) % 8, v ^ (1ull << b), 0);
+        check_fp_asm(ctx, s, i % 8, v + 1, 0);
+        check_fp_asm(ctx, s, (i + 1) % 8, v - 1, 0);
+        judged += 74;
+      }
+      for (int k = -40; k <= 40; k++) if (k) { check_fp_asm(ctx, s, unsigned(k + 40) % 8, 0, k); judged++; }
+      check_fp_asm(ctx, s, 0, 0, 0);                       // +0.0 has no encoding
+      check_fp_asm(ctx, s, 1, 1ull << 63, 0);              // -0.0
+    } else {
+      // all 65536 half-precision bit patterns
+      for (uint64_t v = 0; v < 65536; v++) check_fp_util(ctx, 0, v);
+      judged += 65536;
+    }
+    ctx.cls("fp-sweep-items");
+  }
+  for (const vh::Op& op : c.ops) {
+    int p = int(umod(op_at(op, 0), 3));
+    int kind = int(umod(op_at(op, 1), 4));
+    uint64_t a = uint64_t(op_at(op, 2));
+    unsigned imm8 = unsigned(umod(op_at(op, 3), 256));
+    switch (kind) {
+      default:
+      case 0: check_fp_util(ctx, p, a); break;
+      case 1: check_fp_util(ctx, p, vfp_expand_imm(imm8, kPrecBits[p]) ^ (a & mask_n(kPrecBits[p] - 8))); break;   // right head, dirty low bits
+      case 2: check_fp_asm(ctx, s, unsigned(umod(op_at(op, 4), 8)), a, 0); break;
+      case 3: check_fp_asm(ctx, s, unsigned(umod(op_at(op, 4), 8)), vfp_expand_imm(imm8, 64) ^ (a & mask_n(56) & (umod(op_at(op, 4), 3) ? ~0ull : 0ull)), 0); break;
+    }
+    judged++;
+  }
+  if (judged) {
+    ctx.nontrivial();
+    if (ctx.want_sample()) { char b[120]; snprintf(b, sizeof b, "fp-imm prec=%u mode=%d ops=%zu: %" PRIu64 " values judged", nb, mode, c.ops.size(), judged); ctx.sample(b); }
+  }
+}
+
+// ---- family 3: move-wide sequences (mov Rd, #imm) ---------------------------------------------
+// rd 0..30: general register; rd 31: sp/wsp (only a bitmask immediate can be moved to SP)
+static void check_mov(vh::Ctx& ctx, A64& s, bool sf, unsigned rd, uint64_t value) {
+  rd %= 32;
+  uint64_t expect = sf ? value : (value & 0xFFFFFFFFull);
+  Error e = rd == 31 ? s.emit(a64::Inst::kIdMov, sf ? a64::sp : a64::wsp, Imm(int64_t(value))) : s.emit(a64::Inst::kIdMov, gp_reg(sf, rd), Imm(int64_t(value)));
+  if (!emit_shape_ok(ctx, s, e, "movwide", "mov")) return;
+  char rn[8];
+  snprintf(rn, sizeof rn, rd == 31 ? (sf ? "sp" : "wsp") : (sf ? "x%u" : "w%u"), rd);
+  if (rd == 31) {
+    bool ref = ref_is_logical(expect, sf ? 64 : 32);
+    ctx.cls(e == Error::kOk ? "mov/sp-accepted" : "mov/sp-rejected");
+    if (e == Error::kOk && !ref) { if (imm_fail(ctx, "movwide-sp-accepts-unencodable", "mov %s, #0x%" PRIx64 " assembled (0x%08x) although only a bitmask immediate can be moved to SP", rn, value, s.words[0])) return; }
+    if (e != Error::kOk && ref) { if (imm_fail(ctx, "movwide-sp-rejects-encodable", "mov %s, #0x%" PRIx64 " refused (error %u) although ORR %s, zr, #imm encodes it", rn, value, unsigned(e), rn)) return; }
+    if (e != Error::kOk) return;
+  } else if (e != Error::kOk) {
+    imm_fail(ctx, "movwide-rejected", "mov %s, #0x%" PRIx64 " refused with error %u", rn, value, unsigned(e));
+    return;
+  }
+  size_t nw = s.words.size();
+  if (nw > (sf ? 4u : 2u)) { if (imm_fail(ctx, "movwide-too-many-words", "mov %s, #0x%" PRIx64 " produced %zu words", rn, value, nw)) return; }
+  ctx.cls(nw == 1 ? "mov/1-word" : nw == 2 ? "mov/2-words" : nw == 3 ? "mov/3-words" : "mov/4-words");
+  Machine m, m0;
+  m.init(value * 31 + rd);
+  m0 = m;
+  for (size_t i = 0; i < nw; i++) {
+    uint32_t w = s.words[i];
+    uint32_t cls = w & 0x1F800000u;
+    if (cls == 0x12800000u) ctx.cls(((w >> 29) & 3) == 0 ? "mov/op-movn" : ((w >> 29) & 3) == 2 ? "mov/op-movz" : "mov/op-movk");
+    else if (cls == 0x12000000u) ctx.cls("mov/op-orr");
+    bool known_op = (cls == 0x12800000u) || (cls == 0x12000000u && ((w >> 29) & 3) == 1);
+    if (!known_op || !machine_exec(m, w)) {
+      if (imm_fail(ctx, "movwide-unknown-instruction", "mov %s, #0x%" PRIx64 ": word %zu = 0x%08x is not MOVZ/MOVN/MOVK/ORR(immediate) or is UNDEFINED", rn, value, i, w)) return;
+    }
+  }
+  uint64_t got = rd == 31 ? m.sp : m.x[rd];
+  if (got != expect) { if (imm_fail(ctx, "movwide-wrong-value", "mov %s, #0x%" PRIx64 " -> %zu words [0x%08x 0x%08x 0x%08x 0x%08x] leave 0x%" PRIx64 " in the register, expected 0x%" PRIx64, rn, value, nw, nw > 0 ? s.words[0] : 0, nw > 1 ? s.words[1] : 0, nw > 2 ? s.words[2] : 0, nw > 3 ? s.words[3] : 0, got, expect)) return; }
+  for (unsigned r = 0; r < 31; r++)
+    if (r != rd && m.x[r] != m0.x[r]) { imm_fail(ctx, "movwide-clobbers-other-register", "mov %s, #0x%" PRIx64 " modified x%u", rn, value, r); return; }
+  if (rd != 31 && m.sp != m0.sp) imm_fail(ctx, "movwide-clobbers-other-register", "mov %s, #0x%" PRIx64 " modified sp", rn, value);
+}
+
+static uint64_t lane_value(unsigned sel, uint64_t seed, unsigned lane) {
+  switch (sel % 5) {
+    case 0: return 0;
+    case 1: return 0xFFFF;
+    case 2: return 1;
+    case 3: return 0x8000;
+    default: { uint64_t r = mix64(seed * 4 + lane) & 0xFFFF; if (r == 0 || r == 0xFFFF) r = 0x1234; return r; }
+  }
+}
+static uint64_t lanes_constant(unsigned combo, uint64_t seed) {
+  uint64_t v = 0;
+  for (unsigned l = 0; l < 4; l++) { v |= lane_value(combo % 5, seed, l) << (16 * l); combo /= 5; }
+  return v;
+}
+
+static void run_movwide(const vh::Case& c, vh::Ctx& ctx) {
+  int variant = int(umod(cfg_at(c, 1), 3));
+  uint64_t p = uint64_t(cfg_at(c, 2));
+  A64 s;
+  uint64_t judged = 0;
+  if (cfg_at(c, 3) > 0) {
+    if (variant == 0) {
+      for (unsigned combo = 0; combo < 625; combo++) {
+        uint64_t v = lanes_constant(combo, p);
+        check_mov(ctx, s, true, (combo + unsigned(p)) % 31, v);
+        check_mov(ctx, s, false, (combo + unsigned(p) + 7) % 31, v);
+        check_mov(ctx, s, true, (combo * 3 + unsigned(p)) % 31, ~v);
+        judged += 3;
+        if (combo % 25 == unsigned(p % 25)) { check_mov(ctx, s, true, 31, v); check_mov(ctx, s, false, 31, v); }
+      }
+    } else if (variant == 1) {
+      unsigned imms = unsigned(p % 64);
+      for (unsigned N = 0; N < 2; N++)
+        for (unsigned immr = 0; immr < 64; immr++) {
+          BitMasks bm = decode_bit_masks(N, imms, immr, true, 64);
+          if (!bm.valid) continue;
+          uint64_t v = bm.wmask;
+          check_mov(ctx, s, true, (immr + N) % 31, v);
+          check_mov(ctx, s, true, 31, v);
+          check_mov(ctx, s, false, immr % 31, v);
+          check_mov(ctx, s, false, 31, v);
+          for (unsigned b = 0; b < 64; b++) { check_mov(ctx, s, true, (immr + b) % 32, v ^ (1ull << b)); check_mov(ctx, s, false, (immr + b + 5) % 32, v ^ (1ull << b)); }
+          judged += 132;
+        }
+    } else {
+      static const uint64_t imms16[] = {0, 1, 2, 0x7FFF, 0x8000, 0x8001, 0xFFFE, 0xFFFF, 0x00FF, 0xFF00, 0x5555, 0xAAAA};
+      const unsigned n16 = unsigned(sizeof(imms16) / sizeof(imms16[0]));
+      for (unsigned hw = 0; hw < 4; hw++)
+        for (unsigned i = 0; i < n16; i++) {
+          uint64_t one = imms16[i] << (16 * hw);
+          check_mov(ctx, s, true, (hw + i) % 31, one);
+          check_mov(ctx, s, true, (hw + i + 1) % 31, ~one);
+          check_mov(ctx, s, false, (hw + i + 2) % 31, one);
+          check_mov(ctx, s, false, (hw + i + 3) % 31, ~one);
+          judged += 4;
+          for (unsigned hw2 = 0; hw2 < 4; hw2++)
+            for (unsigned j = 0; j < n16; j++) {
+              uint64_t two = one | (imms16[j] << (16 * hw2));
+              check_mov(ctx, s, true, (i + j) % 31, two);
+              check_mov(ctx, s, true, (i + j + 9) % 31, ~two);
+              check_mov(ctx, s, false, (i + j + 4) % 31, two);
+              judged += 3;
+            }
+        }
+      for (int k = -70000; k <= 70000; k += 1 + int(p % 3)) { check_mov(ctx, s, true, unsigned(k & 15), uint64_t(int64_t(k))); check_mov(ctx, s, false, unsigned(k & 15) + 3, uint64_t(int64_t(k))); judged += 2; }
+    }
+    ctx.cls("movwide-sweep-items");
+  }
+  for (const vh::Op& op : c.ops) {
+    bool sf = umod(op_at(op, 0), 2) != 0;
+    unsigned rd = unsigned(umod(op_at(op, 1), 32));
+    int kind = int(umod(op_at(op, 2), 4));
+    uint64_t a = uint64_t(op_at(op, 3)), b = uint64_t(op_at(op, 4));
+    uint64_t v;
+    switch (kind) {
+      default:
+      case 0: v = a; break;
+      case 1: v = lanes_constant(unsigned(a % 625), b); break;
+      case 2: v = ~lanes_constant(unsigned(a % 625), b); break;
+      case 3: v = logical_pattern(int64_t(a), int64_t(b), int64_t(a >> 8)) ^ ((b >> 20) & 1 ? (1ull << ((b >> 8) & 63)) : 0); break;
+    }
+    check_mov(ctx, s, sf, rd, v);
+    judged++;
+  }
+  if (judged) {
+    ctx.nontrivial();
+    if (ctx.want_sample()) { char b[120]; snprintf(b, sizeof b, "mov-wide variant=%d p=%" PRIu64 " ops=%zu: %" PRIu64 " constants evaluated", variant, p, c.ops.size(), judged); ctx.sample(b); }
+  }
+}
+
+// ---- family 4: add/sub immediates ---------------------------------------------------------------
+struct AddSubInst { InstId id; unsigned op, S; bool cmp; const char* name; };
+static const AddSubInst kAddSub[] = {
+  {a64::Inst::kIdAdd, 0, 0, false, "add"}, {a64::Inst::kIdAdds, 0, 1, false, "adds"}, {a64::Inst::kIdSub, 1, 0, false, "sub"},
+  {a64::Inst::kIdSubs, 1, 1, false, "subs"}, {a64::Inst::kIdCmn, 0, 1, true, "cmn"}, {a64::Inst::kIdCmp, 1, 1, true, "cmp"},
+};
+
+static bool ref_add_sub_imm(uint64_t imm) { return imm <= 0xFFFull || ((imm & ~0xFFF000ull) == 0); }
+
+// shiftmode 0: no shift operand; 1: lsl #0; 2: lsl #12; 3: a shift the instruction does not have (lsl #24 / lsr #12)
+static void check_addsub(vh::Ctx& ctx, A64& s, unsigned inst, bool sf, uint64_t imm, unsigned shiftmode) {
+  const AddSubInst& I = kAddSub[inst % 6];
+  shiftmode %= 4;
+  if (I.cmp) shiftmode = 0;
+  unsigned rd = 1 + unsigned(imm % 13), rn = 14 + unsigned((imm >> 4) % 16);
+  Error e;
+  if (I.cmp) e = s.emit(I.id, gp_reg(sf, rn), Imm(int64_t(imm)));
+  else if (shiftmode == 0) e = s.emit(I.id, gp_reg(sf, rd), gp_reg(sf, rn), Imm(int64_t(imm)));
+  else if (shiftmode == 1) e = s.emit(I.id, gp_reg(sf, rd), gp_reg(sf, rn), Imm(int64_t(imm)), Imm(a64::lsl(0)));
+  else if (shiftmode == 2) e = s.emit(I.id, gp_reg(sf, rd), gp_reg(sf, rn), Imm(int64_t(imm)), Imm(a64::lsl(12)));
+  else e = (imm & 1) ? s.emit(I.id, gp_reg(sf, rd), gp_reg(sf, rn), Imm(int64_t(imm)), Imm(a64::lsl(24))) : s.emit(I.id, gp_reg(sf, rd), gp_reg(sf, rn), Imm(int64_t(imm)), Imm(a64::lsr(12)));
+  if (!emit_shape_ok(ctx, s, e, "addsub-imm", I.name)) return;
+  bool encodable;
+  uint64_t want;       // the value the instruction must add/subtract
+  if (shiftmode == 2) { encodable = imm <= 0xFFF; want = imm << 12; }
+  else if (shiftmode == 3) { encodable = false; want = 0; }
+  else { encodable = ref_add_sub_imm(imm); want = imm; }
+  ctx.cls(e == Error::kOk ? "addsub/accepted" : "addsub/rejected");
+  if (e == Error::kOk && !encodable) { if (imm_fail(ctx, "addsub-imm-accepts-unencodable", "%s %c, %c, #0x%" PRIx64 " (shift mode %u) assembled to 0x%08x although imm12/LSL #12 cannot hold it", I.name, sf ? 'x' : 'w', sf ? 'x' : 'w', imm, shiftmode, s.words[0])) return; }
+  if (e != Error::kOk && encodable) { if (imm_fail(ctx, "addsub-imm-rejects-encodable", "%s %c, %c, #0x%" PRIx64 " (shift mode %u) refused with error %u", I.name, sf ? 'x' : 'w', sf ? 'x' : 'w', imm, shiftmode, unsigned(e))) return; }
+  if (e != Error::kOk) return;
+  uint32_t w = s.words[0];
+  // Add/subtract (immediate): sf op S 100010 sh imm12 Rn Rd
+  bool shape = s.words.size() == 1 && (w & 0x1F800000u) == 0x11000000u && ((w >> 31) & 1) == (sf ? 1u : 0u) && ((w >> 30) & 1) == I.op && ((w >> 29) & 1) == I.S &&
+               ((w >> 5) & 31) == rn && (w & 31) == (I.cmp ? 31u : rd);
+  if (!shape) { if (imm_fail(ctx, "addsub-imm-wrong-opcode", "%s #0x%" PRIx64 " assembled to 0x%08x (%zu words): not the expected add/sub (immediate) encoding", I.name, imm, w, s.words.size())) return; }
+  uint64_t got = uint64_t((w >> 10) & 0xFFF) << (((w >> 22) & 1) ? 12 : 0);
+  if (got != want) imm_fail(ctx, "addsub-imm-wrong-value", "%s %c, %c, #0x%" PRIx64 " (shift mode %u) assembled to 0x%08x which encodes #0x%" PRIx64 ", expected #0x%" PRIx64, I.name, sf ? 'x' : 'w', sf ? 'x' : 'w', imm, shiftmode, w, got, want);
+}
+
+static void check_addsub_all(vh::Ctx& ctx, A64& s, unsigned inst, uint64_t imm) {
+  if (arm::Utils::is_add_sub_imm(imm) != ref_add_sub_imm(imm)) imm_fail(ctx, "addsub-imm-is-mismatch", "is_add_sub_imm(0x%" PRIx64 ") = %d", imm, int(arm::Utils::is_add_sub_imm(imm)));
+  for (unsigned sf = 0; sf < 2; sf++)
+    for (unsigned sm = 0; sm < 4; sm++) {
+      if (kAddSub[inst % 6].cmp && sm) continue;
+      check_addsub(ctx, s, inst, sf != 0, imm, sm);
+    }
+}
+
+static void run_addsub(const vh::Case& c, vh::Ctx& ctx) {
+  unsigned inst = unsigned(umod(cfg_at(c, 1), 6));
+  int region = int(umod(cfg_at(c, 2), 4));
+  A64 s;
+  uint64_t judged = 0;
+  if (cfg_at(c, 3) > 0) {
+    if (region == 0) for (uint64_t i = 0; i <= 0x3000; i++) { check_addsub_all(ctx, s, inst, i); judged++; }
+    else if (region == 1) for (uint64_t i = 0xFFE000; i <= 0x1002000; i++) { check_addsub_all(ctx, s, inst, i); judged++; }
+    else if (region == 2) for (uint64_t k = 0; k <= 0x1001; k++) for (int d = -1; d <= 1; d++) { check_addsub_all(ctx, s, inst, k * 0x1000 + uint64_t(int64_t(d))); judged++; }
+    else {
+      for (unsigned k = 0; k < 64; k++) for (int d = -2; d <= 2; d++) { check_addsub_all(ctx, s, inst, (1ull << k) + uint64_t(int64_t(d))); judged++; }
+      for (int64_t n = -1; n >= -0x1100; n--) { check_addsub_all(ctx, s, inst, uint64_t(n)); judged++; }
+      for (uint64_t k = 0; k < 0x1000; k += 0x11) { check_addsub_all(ctx, s, inst, (k << 12) | k); check_addsub_all(ctx, s, inst, (k << 12) | 1); check_addsub_all(ctx, s, inst, (k << 24)); judged += 3; }
+      check_addsub_all(ctx, s, inst, uint64_t(INT64_MIN)); check_addsub_all(ctx, s, inst, uint64_t(INT64_MAX));
+    }
+    ctx.cls("addsub-sweep-items");
+  }
+  for (const vh::Op& op : c.ops) {
+    check_addsub(ctx, s, unsigned(umod(op_at(op, 0), 6)), umod(op_at(op, 1), 2) != 0, uint64_t(op_at(op, 2)), unsigned(umod(op_at(op, 3), 4)));
+    judged++;
+  }
+  if (judged) {
+    ctx.nontrivial();
+    if (ctx.want_sample()) { char b[120]; snprintf(b, sizeof b, "add/sub-imm inst=%s region=%d ops=%zu: %" PRIu64 " immediates", kAddSub[inst].name, region, c.ops.size(), judged); ctx.sample(b); }
+  }
+}
+
+// ---- family 5: bitfield positions -------------------------------------------------------------
+enum { BF_UBFX, BF_SBFX, BF_BFXIL, BF_UBFIZ, BF_SBFIZ, BF_BFI, BF_BFC, BF_UBFM, BF_SBFM, BF_BFM, BF_LSL, BF_LSR, BF_ASR, BF_ROR, BF_EXTR, BF_COUNT };
+struct BfInst { InstId id; const char* name; };
+static const BfInst kBf[BF_COUNT] = {
+  {a64::Inst::kIdUbfx, "ubfx"}, {a64::Inst::kIdSbfx, "sbfx"}, {a64::Inst::kIdBfxil, "bfxil"}, {a64::Inst::kIdUbfiz, "ubfiz"}, {a64::Inst::kIdSbfiz, "sbfiz"},
+  {a64::Inst::kIdBfi, "bfi"}, {a64::Inst::kIdBfc, "bfc"}, {a64::Inst::kIdUbfm, "ubfm"}, {a64::Inst::kIdSbfm, "sbfm"}, {a64::Inst::kIdBfm, "bfm"},
+  {a64::Inst::kIdLsl, "lsl"}, {a64::Inst::kIdLsr, "lsr"}, {a64::Inst::kIdAsr, "asr"}, {a64::Inst::kIdRor, "ror"}, {a64::Inst::kIdExtr, "extr"},
+};
+
+// p = lsb / immr / shift, q = width / imms (unused for shifts)
+static void check_bitfield(vh::Ctx& ctx, A64& s, unsigned inst, bool sf, uint64_t p, uint64_t q) {
+  inst %= BF_COUNT;
+  const BfInst& I = kBf[inst];
+  const unsigned size = sf ? 64 : 32;
+  const uint64_t sm = mask_n(size);
+  const unsigned rd = 2, rn = 3, rm = 4;
+  bool valid;
+  if (inst <= BF_BFC) valid = p < size && q >= 1 && q <= size - p;
+  else if (inst <= BF_BFM) valid = p < size && q < size;
+  else valid = p < size;
+  Error e;
+  if (inst == BF_BFC) e = s.emit(I.id, gp_reg(sf, rd), Imm(int64_t(p)), Imm(int64_t(q)));
+  else if (inst <= BF_BFM) e = s.emit(I.id, gp_reg(sf, rd), gp_reg(sf, rn), Imm(int64_t(p)), Imm(int64_t(q)));
+  else if (inst == BF_EXTR) e = s.emit(I.id, gp_reg(sf, rd), gp_reg(sf, rn), gp_reg(sf, rm), Imm(int64_t(p)));
+  else e = s.emit(I.id, gp_reg(sf, rd), gp_reg(sf, rn), Imm(int64_t(p)));
+  if (!emit_shape_ok(ctx, s, e, "bitfield", I.name)) return;
+  std::string kb = std::string("bitfield-") + I.name;
+  ctx.cls(e == Error::kOk ? "bitfield/accepted" : "bitfield/rejected");
+  if (e == Error::kOk && !valid) { if (imm_fail(ctx, kb + "-accepts-out-of-range", "%s (%u-bit) #%" PRIu64 ", #%" PRIu64 " assembled to 0x%08x although the architecture has no such encoding (lsb < %u, 1 <= width <= %u - lsb)", I.name, size, p, q, s.words[0], size, size)) return; }
+  if (e != Error::kOk && valid) { if (imm_fail(ctx, kb + "-rejects-valid", "%s (%u-bit) #%" PRIu64 ", #%" PRIu64 " refused with error %u", I.name, size, p, q, unsigned(e))) return; }
+  if (e != Error::kOk) return;
+  if (s.words.size() != 1) { if (imm_fail(ctx, kb + "-wrong-result", "%s produced %zu words", I.name, s.words.size())) return; }
+  uint32_t w = s.words[0];
+  if (inst >= BF_UBFM && inst <= BF_BFM) {
+    unsigned opc = inst == BF_SBFM ? 0 : inst == BF_BFM ? 1 : 2;
+    bool ok = (w & 0x1F800000u) == 0x13000000u && ((w >> 29) & 3) == opc && ((w >> 31) & 1) == (sf ? 1u : 0u) && ((w >> 22) & 1) == (sf ? 1u : 0u) &&
+              ((w >> 16) & 63) == p && ((w >> 10) & 63) == q && ((w >> 5) & 31) == rn && (w & 31) == rd;
+    if (!ok) imm_fail(ctx, kb + "-wrong-result", "%s (%u-bit) #%" PRIu64 ", #%" PRIu64 " assembled to 0x%08x: fields do not match", I.name, size, p, q, w);
+    return;
+  }
+  for (unsigned t = 0; t < 3; t++) {
+    Machine m, m0;
+    m.init(mix64(p * 131 + q * 7 + t));
+    if (t == 1) { m.x[rn] = ~0ull; m.x[rd] = 0; }
+    if (t == 2) { m.x[rn] = 0x8000000180000001ull; m.x[rd] = ~0ull; }
+    m0 = m;
+    if (!machine_exec(m, w)) { if (imm_fail(ctx, kb + "-wrong-result", "%s (%u-bit) #%" PRIu64 ", #%" PRIu64 " assembled to 0x%08x which is not a defined bitfield/extract encoding", I.name, size, p, q, w)) return; break; }
+    uint64_t src = m0.x[rn] & sm, dst = m0.x[rd] & sm, src2 = m0.x[rm] & sm;
+    uint64_t wmsk = mask_n(unsigned(q)), expv = 0;
+    unsigned lsb = unsigned(p), wd = unsigned(q);
+    switch (inst) {
+      case BF_UBFX: expv = (src >> lsb) & wmsk; break;
+      case BF_SBFX: expv = uint64_t(sext((src >> lsb) & wmsk, wd)) & sm; break;
+      case BF_BFXIL: expv = (dst & ~wmsk) | ((src >> lsb) & wmsk); break;
+      case BF_UBFIZ: expv = ((src & wmsk) << lsb) & sm; break;
+      case BF_SBFIZ: expv = (uint64_t(sext(src & wmsk, wd)) << lsb) & sm; break;
+      case BF_BFI: expv = (dst & ~((wmsk << lsb) & sm)) | (((src & wmsk) << lsb) & sm); break;
+      case BF_BFC: expv = dst & ~((wmsk << lsb) & sm); break;
+      case BF_LSL: expv = (src << lsb) & sm; break;
+      case BF_LSR: expv = src >> lsb; break;
+      case BF_ASR: expv = uint64_t(sext(src, size) >> lsb) & sm; break;
+      case BF_ROR: expv = ror_n(src, lsb, size); break;
+      case BF_EXTR: expv = lsb ? ((src2 >> lsb) | (src << (size - lsb))) & sm : src2; break;
+    }
+    if (m.x[rd] != expv) { if (imm_fail(ctx, kb + "-wrong-result", "%s (%u-bit) #%" PRIu64 ", #%" PRIu64 " assembled to 0x%08x: with Rn=0x%" PRIx64 " Rd=0x%" PRIx64 " Rm=0x%" PRIx64 " the encoding computes 0x%" PRIx64 ", the alias means 0x%" PRIx64, I.name, size, p, q, w, src, dst, src2, m.x[rd], expv)) return; }
+    for (unsigned r = 0; r < 31; r++) if (r != rd && m.x[r] != m0.x[r]) { imm_fail(ctx, kb + "-wrong-result", "%s modified x%u", I.name, r); return; }
+  }
+}
+
+static void run_bitfield(const vh::Case& c, vh::Ctx& ctx) {
+  unsigned inst = unsigned(umod(cfg_at(c, 1), BF_COUNT));
+  bool sf = umod(cfg_at(c, 2), 2) != 0;
+  A64 s;
+  uint64_t judged = 0;
+  if (cfg_at(c, 3) > 0) {
+    static const uint64_t extra[] = {96, 127, 128, 255, 256, 0x10000, 0x100000000ull, 0x100000001ull, ~0ull, uint64_t(INT64_MIN)};
+    std::vector<uint64_t> vals;
+    for (uint64_t i = 0; i <= 70; i++) vals.push_back(i);
+    for (uint64_t x : extra) vals.push_back(x);
+    bool two = inst <= BF_BFM;
+    for (uint64_t p : vals) {
+      if (two) for (uint64_t q : vals) { check_bitfield(ctx, s, inst, sf, p, q); judged++; }
+      else { check_bitfield(ctx, s, inst, sf, p, 0); judged++; }
+    }
+    ctx.cls("bitfield-sweep-items");
+  }
+  for (const vh::Op& op : c.ops) {
+    check_bitfield(ctx, s, unsigned(umod(op_at(op, 0), BF_COUNT)), umod(op_at(op, 1), 2) != 0, uint64_t(op_at(op, 2)), uint64_t(op_at(op, 3)));
+    judged++;
+  }
+  if (judged) {
+    ctx.nontrivial();
+    if (ctx.want_sample()) { char b[120]; snprintf(b, sizeof b, "bitfield inst=%s sf=%d ops=%zu: %" PRIu64 " (lsb,width) pairs", kBf[inst].name, int(sf), c.ops.size(), judged); ctx.sample(b); }
+  }
+}
 
 // =================================================================================================
 // Enumeration of sweep items and the generator
@@ -548,7 +1310,17 @@ static std::vector<Item> build_items(const vh::Opts& o) {
       g_win_formats.push_back(f.name);
     }
   }
-  //@@IMM-ITEMS@@
+  // (b) AArch64 immediates
+  for (int sel = 0; sel < 4; sel++) for (int imms = 0; imms < 64; imms++) items.push_back({1, sel, imms, 1, 0});
+  for (int prec = 0; prec < 3; prec++) items.push_back({2, prec, 0, 1, 0});
+  items.push_back({2, 2, 1, 1, 0});
+  items.push_back({2, 0, 2, 1, 0});
+  int nlane = int(o.geti("lanes", o.is_thorough() ? 256 : 24));
+  for (int p = 0; p < nlane; p++) items.push_back({3, 0, p, 1, 0});
+  for (int p = 0; p < 64; p++) items.push_back({3, 1, p, 1, 0});
+  for (int p = 0; p < 3; p++) items.push_back({3, 2, p, 1, 0});
+  for (int inst = 0; inst < 6; inst++) for (int region = 0; region < 4; region++) items.push_back({4, inst, region, 1, 0});
+  for (int inst = 0; inst < BF_COUNT; inst++) for (int sf = 0; sf < 2; sf++) items.push_back({5, inst, sf, 1, 0});
   return items;
 }
 
@@ -566,7 +1338,10 @@ static int64_t rnd64() {
 static vh::Case random_case() {
   vh::Case c;
   int fam = 0;
-  //@@IMM-RANDOM-PICK@@
+  {
+    int r = *vh::irange<int>(0, 99);
+    fam = r < 40 ? 0 : r < 55 ? 1 : r < 65 ? 2 : r < 85 ? 3 : r < 90 ? 4 : 5;
+  }
   if (fam == 0) {
     int fi = *vh::irange<int>(0, kNumFmts - 1);
     const Fmt& f = kFmts[fi];
@@ -596,7 +1371,49 @@ static vh::Case random_case() {
       }
     }
   }
-  //@@IMM-RANDOM@@
+  else if (fam == 1) {
+    c.cfg = {1, 0, 0, 0, 0};
+    int n = *vh::irange<int>(1, 40);
+    for (int i = 0; i < n; i++) {
+      int kind = *vh::irange<int>(0, 3);
+      int64_t a = kind == 0 || kind == 3 ? rnd64() : *vh::irange<int>(0, 5);
+      c.ops.push_back({*vh::irange<int>(0, 3), kind, a, *vh::irange<int>(0, 63), *vh::irange<int>(0, 63), *vh::irange<int>(0, 63), *vh::irange<int>(0, 8)});
+    }
+  } else if (fam == 2) {
+    c.cfg = {2, 0, 0, 0, 0};
+    int n = *vh::irange<int>(1, 40);
+    for (int i = 0; i < n; i++) {
+      int kind = *vh::irange<int>(0, 3);
+      int64_t a = rnd64();
+      if (kind == 1 || kind == 3) { int w = *vh::irange<int>(0, 2); if (w == 0) a = int64_t(1) << *vh::irange<int>(0, 55); else if (w == 1) a &= (int64_t(1) << *vh::irange<int>(1, 56)) - 1; }
+      c.ops.push_back({*vh::irange<int>(0, 2), kind, a, *vh::irange<int>(0, 255), *vh::irange<int>(0, 7)});
+    }
+  } else if (fam == 3) {
+    c.cfg = {3, 0, 0, 0, 0};
+    int n = *vh::irange<int>(1, 40);
+    for (int i = 0; i < n; i++) {
+      int kind = *vh::irange<int>(0, 3);
+      int64_t a = rnd64(), b = rnd64();
+      if (kind == 0) { int w = *vh::irange<int>(0, 3); if (w == 0) a >>= *vh::irange<int>(0, 63); else if (w == 1) a = int64_t(uint64_t(a) & 0xFFFFFFFFull); }
+      c.ops.push_back({*vh::irange<int>(0, 1), *vh::irange<int>(0, 31), kind, a, b});
+    }
+  } else if (fam == 4) {
+    c.cfg = {4, 0, 0, 0, 0};
+    int n = *vh::irange<int>(1, 40);
+    for (int i = 0; i < n; i++) {
+      int w = *vh::irange<int>(0, 4);
+      int64_t imm = w == 0 ? *vh::irange<int>(0, 0x2000) : w == 1 ? int64_t(*vh::irange<int>(0, 0x1001)) << 12 : w == 2 ? (int64_t(*vh::irange<int>(0, 0xFFF)) << 12) + *vh::irange<int>(-2, 2) : w == 3 ? (rnd64() >> *vh::irange<int>(0, 63)) : rnd64();
+      c.ops.push_back({*vh::irange<int>(0, 5), *vh::irange<int>(0, 1), imm, *vh::irange<int>(0, 3)});
+    }
+  } else if (fam == 5) {
+    c.cfg = {5, 0, 0, 0, 0};
+    int n = *vh::irange<int>(1, 40);
+    for (int i = 0; i < n; i++) {
+      int w = *vh::irange<int>(0, 9);
+      int64_t p = w == 0 ? rnd64() : *vh::irange<int>(0, 70), q = w == 1 ? rnd64() : *vh::irange<int>(0, 70);
+      c.ops.push_back({*vh::irange<int>(0, BF_COUNT - 1), *vh::irange<int>(0, 1), p, q});
+    }
+  }
   return c;
 }
 
@@ -639,6 +1456,10 @@ void vh_run(const vh::Case& c, vh::Ctx& ctx) {
   switch (fam) {
     default:
     case 0: run_offsets(c, ctx); break;
-    //@@IMM-DISPATCH@@
+    case 1: run_logical(c, ctx); break;
+    case 2: run_fp(c, ctx); break;
+    case 3: run_movwide(c, ctx); break;
+    case 4: run_addsub(c, ctx); break;
+    case 5: run_bitfield(c, ctx); break;
   }
 }
